@@ -1,7 +1,7 @@
 """C03 Component pair combinations expand into complete, correctly linked statements."""
 import json, random
 from common import *
-from pool import run_pool
+from pool import run_pool, run_lines
 from sxp import *
 import gen_text as TX
 
@@ -78,7 +78,39 @@ def gen(tier, seed):
         inner = [tg.comp(s, 2) for s in rng.sample(OUTSIDE_SYMS, rng.randint(0, 3))] + [('pairs', fill(sh, [rng.randint(1, 3) for _ in range(k)]))]
         rng.shuffle(inner)
         cases.append(("S", [('comp', 'A', '', '', ('leaf', tg.word())), ('nested', rng.choice(TX.NEST_NONPROP), '', '', inner)] if rng.random() < 0.6 else inner))
+    # P3: a component with a suffix-linked private property written outside the braces, and a component of the same type
+    #     inside at least one group: every expanded statement carries the outside value together with its private property
+    for _ in range(10 if tier == "quick" else 150):
+        comp, prop = rng.choice([('A', 'A,p'), ('Bdir', 'Bdir,p'), ('Bind', 'Bind,p'), ('E', 'E,p'), ('P', 'P,p')])
+        outside = [('comp', comp, '1', '', ('leaf', tg.word())), ('comp', prop, '1', '', ('leaf', tg.word()))]
+        if rng.random() < 0.5:
+            outside.append(('comp', prop, '', '', ('leaf', tg.word())))
+        if comp != 'A':
+            outside.append(('comp', 'A', '', '', ('leaf', tg.word())))
+        g1 = [('comp', 'I', '', '', ('leaf', tg.word())), ('comp', comp, '', '', ('leaf', tg.word()))]
+        g2 = [('comp', 'I', '', '', ('leaf', tg.word()))] + ([('comp', comp, '', '', ('leaf', tg.word()))] if rng.random() < 0.4 else [])
+        gs = [g1, g2]
+        rng.shuffle(gs)
+        t = ('op', rng.choice(TX.OPS), ('leaf', gs[0]), ('leaf', gs[1]))
+        if rng.random() < 0.3:
+            t = ('op', rng.choice(TX.OPS), t, ('leaf', [('comp', 'I', '', '', ('leaf', tg.word())), ('comp', 'Cac', '', '', ('leaf', tg.word()))]))
+        parts = outside + [('pairs', t)]
+        rng.shuffle(parts)
+        cases.append(("P3", parts))
     return cases
+
+
+def proj_priv(n, root=True):
+    """Projection that keeps the private links (stream P3)."""
+    def ent(e):
+        if isinstance(e, tuple) and e[0] == 'T':
+            return ('T', [(f, proj_priv(x)) for f, x in e[1]])
+        if isinstance(e, tuple) and e[0] == 'NS':
+            return ('NS', [proj_priv(x) for x in e[1]])
+        return e
+    if n[0] == 'L':
+        return ('L', n[1] if root else b"", n[2], n[3], [x for x in n[4] if x], [x for x in n[5] if x], ent(n[6]), [proj_priv(x, True) for x in n[7]])
+    return ('C', n[1] if root else b"", n[2], n[3], [x for x in n[4] if x], [x for x in n[5] if x], n[6], proj_priv(n[7], False), proj_priv(n[8], False))
 
 
 def expanded_statements(n):
@@ -123,6 +155,18 @@ def run(args):
             oc = "crash"
         elif r.get("err") != "NO_ERROR_DURING_PARSING":
             oc = "rejected:" + str(r.get("err"))
+        elif stream == "P3":
+            # the outside components are linked (Model/Priv.v on their denotation) before they are shared by the groups
+            outside = [p for p in parts if p[0] != 'pairs']
+            pt = next(p for p in parts if p[0] == 'pairs')[1]
+            m = run_lines([build.modelrun], ["privn\t" + wnode(('L', b"", None, None, [], [], ('T', TX.d_fields(outside)), []))])[0] if build.modelrun else "bad:no model"
+            if m.startswith("bad:"):
+                oc = "ok"
+                V.broke("model:privn", m[:200])
+            else:
+                exp = proj_priv(TX.d_ptree(pt, rnode(m)[6][1]))
+                got = proj_priv(rnode(r["nodes"][0]))
+                oc = "ok" if got == exp else "differs"
         else:
             got = TX.strip_full(rnode(r["nodes"][0]))
             exp = TX.strip_full(TX.d_root(parts))
